@@ -109,6 +109,49 @@ static void check_hist(const struct cmi_dataset_histogram *hp, double total, con
 
 static FILE *devnull;
 
+/* the printed histogram shows what the bins hold: one row per bin, the two open-ended ones included, each bar as long as
+ * the printer's own scale (50 blocks for the fullest bin) makes it */
+static char *printed;
+static size_t printed_len;
+static FILE *print_open(void)
+{
+    printed = NULL;
+    printed_len = 0;
+    return open_memstream(&printed, &printed_len);
+}
+
+static void check_printed_hist(FILE *fp, const struct cmi_dataset_histogram *hp, const char *what)
+{
+    fclose(fp);
+    char rule[100];
+    const double scale = (hp->binmax > 0.0) ? hp->binmax / 50.0 : 1.0;
+    unsigned row = 0;
+    for (const char *ln = printed; ln != NULL && *ln != 0; ) {
+        const char *nl = strchr(ln, '\n');
+        const char *bar = memchr(ln, '|', nl ? (size_t)(nl - ln) : strlen(ln));
+        if (bar != NULL) {
+            uint64_t blocks = 0;
+            for (const char *c = bar + 1; c != nl && *c != 0; c++) {
+                blocks += *c == '#';
+            }
+            if (row < hp->num_bins && blocks != (uint64_t)(hp->hbins[row] / scale)) {
+                snprintf(rule, sizeof rule, "%s:printed-histogram:bar-length", what);
+                FAIL(rule, "row %u of the printed histogram has %" PRIu64 " blocks, its bin holds %g (scale %g per block)", row,
+                     blocks, hp->hbins[row], scale);
+                break;
+            }
+            row++;
+        }
+        ln = nl ? nl + 1 : NULL;
+    }
+    if (vx_violations_this_exec() == 0 && row != hp->num_bins) {
+        snprintf(rule, sizeof rule, "%s:printed-histogram:rows", what);
+        FAIL(rule, "the printed histogram has %u rows, the histogram %u bins (with the two open-ended ones)", row, hp->num_bins);
+    }
+    free(printed);
+    printed = NULL;
+}
+
 /* Durbin-Levinson in long double, used only to judge how ill-conditioned the recursion is for
  * a given autocorrelation sequence (tiny perturbations of the ACF must not move the PACF) */
 static void dl_pacf(const double *acf, unsigned lag, double eps, long double *out)
@@ -227,7 +270,8 @@ static void check_dataset(void)
         static const double RG[4][2] = { { 0, 0 }, { 0, 3 }, { 1, 2 }, { -1, 10 } };
         for (int b = 0; b < 3; b++) {
             for (int g = 0; g < 4; g++) {
-                cmb_dataset_histogram_print(&ds, devnull, NB[b], RG[g][0], RG[g][1]);
+                FILE *pf = print_open();
+                cmb_dataset_histogram_print(&ds, pf, NB[b], RG[g][0], RG[g][1]);
                 double l = RG[g][0], h = RG[g][1];
                 unsigned nb = NB[b];
                 if (l == h) {
@@ -242,10 +286,19 @@ static void check_dataset(void)
                     struct cmi_dataset_histogram *hp = cmi_dataset_histogram_create(nb, l, h);
                     cmi_dataset_histogram_fill(hp, (uint64_t)n, ds.xa);
                     check_hist(hp, (double)n, "dataset");
+                    if (vx_violations_this_exec() == 0) {
+                        check_printed_hist(pf, hp, "dataset");
+                        pf = NULL;
+                    }
                     cmi_dataset_histogram_destroy(hp);
                     if (vx_violations_this_exec()) {
+                        if (pf) { fclose(pf); free(printed); }
                         goto out;
                     }
+                }
+                if (pf) {
+                    fclose(pf);
+                    free(printed);
                 }
             }
         }
@@ -446,7 +499,8 @@ static void check_timeseries(void)
         static const double RG[4][2] = { { 0, 0 }, { 0, 3 }, { 1, 2 }, { -1, 10 } };
         for (int b = 0; b < 3; b++) {
             for (int g = 0; g < 4; g++) {
-                cmb_timeseries_histogram_print(&ts, devnull, (uint16_t)NB[b], RG[g][0], RG[g][1]);
+                FILE *pf = print_open();
+                cmb_timeseries_histogram_print(&ts, pf, (uint16_t)NB[b], RG[g][0], RG[g][1]);
                 double l = RG[g][0], h = RG[g][1];
                 unsigned nb = NB[b];
                 if (l == h) {
@@ -461,10 +515,19 @@ static void check_timeseries(void)
                     struct cmi_dataset_histogram *hp = cmi_dataset_histogram_create(nb, l, h);
                     timeseries_histogram_fill(hp, (uint64_t)n, ts.ds.xa, ts.wa);
                     check_hist(hp, wtot, "timeseries");
+                    if (vx_violations_this_exec() == 0) {
+                        check_printed_hist(pf, hp, "timeseries");
+                        pf = NULL;
+                    }
                     cmi_dataset_histogram_destroy(hp);
                     if (vx_violations_this_exec()) {
+                        if (pf) { fclose(pf); free(printed); }
                         goto out;
                     }
+                }
+                if (pf) {
+                    fclose(pf);
+                    free(printed);
                 }
             }
         }
